@@ -153,7 +153,11 @@ func init() {
 			dir = "/tmp"
 		}
 		m.Env.Tmpfiles++
-		p := fmt.Sprintf("%s/%s%09d", dir, m.mustStr(a[1], "TempFile pattern"), m.Env.Tmpfiles)
+		pat := m.mustStr(a[1], "TempFile pattern")
+		p := fmt.Sprintf("%s/%s%09d", dir, pat, m.Env.Tmpfiles)
+		if i := strings.LastIndex(pat, "*"); i >= 0 {
+			p = fmt.Sprintf("%s/%s%09d%s", dir, pat[:i], m.Env.Tmpfiles, pat[i+1:])
+		}
 		if e := m.fsWriteFile(p, "", "go"); !isNilValue(e) {
 			return Tuple{(*Ext)(nil), e}
 		}
